@@ -148,11 +148,14 @@ pub mod c03;
 pub mod c04;
 pub mod wellformed;
 pub mod c11;
+pub mod c02k;
 pub mod c14;
 #[cfg(not(kani))]
 pub mod e2n;
 #[cfg(not(kani))]
 pub mod battery;
+#[cfg(not(kani))]
+pub mod c02;
 
 harnesses! {
     c04_datum_prefix_5 [stub 8] => c04::datum_prefix_5;
@@ -189,6 +192,10 @@ harnesses! {
     e2n_c01_struct_roundtrip [native 0] => battery::c01_battery;
     e2n_c04_fixed_tx [native 0] => battery::c04_fixed_tx;
     e2n_c13_send_all [native 0] => battery::c13_send_all;
+    e2n_c02_decode [native 0] => c02::c02_decode;
+    e2n_c02_battery [native 0] => c02::c02_battery;
+    e2n_c02_wrappers [native 0] => c02::c02_wrappers;
+    c02_hash_from_bytes [stub 36] => c02k::hash_from_bytes;
     c11_enc_base [stub 4] => c11::enc_base;
     c11_enc_enterprise [stub 4] => c11::enc_enterprise;
     c11_enc_reward [stub 4] => c11::enc_reward;
